@@ -20,6 +20,9 @@ META = {
                     "class:stored_category_without_rows"] for t in ("quick", "thorough")},
     "assumptions": ["the order of delivery is not part of the property; only the multiset of (coordinates, row ids)"],
 }
+META["rule"] += '; round 7: a callable that is also a sequence (UserList subclass with __call__) passed bare as the single callback'
+for _t in META["require"]:
+    META["require"][_t] = list(META["require"][_t]) + ['walk:callback_is_a_callable_sequence']
 
 
 def shards(tier):
